@@ -167,12 +167,59 @@ def run_case(chk, r, root, n, in_parts, npart, mode, comp, prior, dup, tag, tail
         shutil.rmtree(work + "_source.parq", ignore_errors=True)
 
 
+def repacked_datasets(chk, r, root, tier):
+    """a dataset packed from a frame that was itself packed (its index is named hilbert_distance): after choosing another geometry
+    column, another p, or fewer rows, the new dataset is Hilbert-ordered for what was asked this time - in the returned frame and
+    in an independent read"""
+    import dask.dataframe as dd
+    from spatialpandas import GeoDataFrame
+    from spatialpandas.io import read_parquet_dask
+    n = 48
+    for k in range(1 if tier == "quick" else 4):
+        pts = [[r.randint(0, 64), r.randint(0, 64)] for _ in range(n)]
+        pts2 = [[r.randint(100, 140), r.randint(-30, 30)] for _ in range(n)]
+        df = GeoDataFrame({"a": list(range(n)), "g1": geo.make_array("point", pts, "float64"), "g2": geo.make_array("point", pts2, "float64")}).set_geometry("g1")
+        work = os.path.join(root, f"repack{k}")
+        os.makedirs(work)
+        first = os.path.join(work, "first.parq")
+
+        def want(frame, col, p):
+            arr = frame[col].array
+            return sorted(zip((int(x) for x in arr.hilbert_distance(total_bounds=arr.total_bounds, p=p)), (int(a) for a in frame["a"])))
+
+        def rows(frame):
+            res = frame.compute()
+            return sorted(zip((int(x) for x in res.index), (int(a) for a in res["a"])))
+        try:
+            ret = dd.from_pandas(df, npartitions=3).pack_partitions_to_parquet(first, npartitions=3, p=7)
+            for name, src, geom, sel, p in (("returned-frame/another-geometry-column", ret, "g2", None, 7), ("read-frame/another-p", read_parquet_dask(first), "g1", None, 4),
+                                            ("read-frame/another-geometry-column", read_parquet_dask(first), "g2", None, 6), ("read-frame/fewer-rows", read_parquet_dask(first), "g1", 20, 7)):
+                frame = src.set_geometry(geom)
+                keep = df
+                if sel is not None:
+                    frame, keep = frame[frame.a < sel], df[df.a < sel]
+                out = os.path.join(work, name.replace("/", "_") + ".parq")
+                ret2 = frame.pack_partitions_to_parquet(out, npartitions=2, p=p)
+                chk.evaluated(n)
+                w = want(keep, geom, p)
+                for how, g in (("returned", rows(ret2)), ("read", rows(read_parquet_dask(out, geometry=geom)))):
+                    if g != w:
+                        what = "rows-differ" if sorted(a for _, a in g) != sorted(a for _, a in w) else "index-is-not-the-hilbert-distance-asked-for"
+                        chk.violation(f"pack_to_parquet/repacked/{name}/{what}", dict(api="pack_partitions_to_parquet", scenario=name, frame=how, points=pts[:6],
+                                                                                      got=g[:6], expected=w[:6])); break
+        except Exception as e:  # noqa: BLE001
+            chk.violation(f"pack_to_parquet/repacked/raises-{common.err_kind(e)}", dict(api="pack_partitions_to_parquet", error=repr(e)[:300]))
+        shutil.rmtree(work, ignore_errors=True)
+    chk.count("repacked-datasets")
+
+
 def run_cases(chk, tier):
     import dask
     dask.config.set(scheduler="synchronous")
     r = common.rng(PROP)
     root = tempfile.mkdtemp(prefix="spv_c10_")
     try:
+        repacked_datasets(chk, common.rng(PROP + "-repack"), root, tier)
         k = 0
         nparts = (1, 2, 3, 6, 13) if tier == "quick" else tuple(range(1, 17))
         for npart in nparts:
